@@ -12,12 +12,18 @@ ASSUME = [
     "tie to the code: the recorded candidate times of every sampling / dumping handler must equal the model's "
     "iteration bit for bit; the end-of-run candidate must equal from_float(end time); at every sampling / end-of-run "
     "leg every moving unit of the model's global state (== real state by after_ok) carries the commit time",
-    "number of samples vs number of sampling times before the end: exact-rational oracle on runs that reach the end",
+    "number of samples vs number of sampling times before the end: Model/SampleCount.v replays the committed legs of "
+    "every traced run with a fixed-interval handler and a configured end time (check_ncase: the pending sample is the "
+    "last sample + interval, no committed event is later than the pending sample or the end, the end of run is the last "
+    "leg; theorems sample_count / sample_count_real in Props/C17count.v), and an exact-rational oracle on runs that "
+    "reach the end",
 ]
 
 
 def encoders():
-    return [("c17_sampling", hist.SAMPLING_HEADER, "check_scase", "scase", lambda tr, n: hist.encode_scase(tr, n))]
+    return [("c17_sampling", hist.SAMPLING_HEADER, "check_scase", "scase", lambda tr, n: hist.encode_scase(tr, n))] + \
+        [("c17_count%d" % w, hist.COUNT_HEADER, "check_ncase", "ncase",
+          (lambda w: lambda tr, n: hist.encode_ncase(tr, n, w))(w)) for w in range(2)]
 
 
 def jobs(ctx):
